@@ -84,6 +84,8 @@ package storagemem
 //@   ensures wf-kept: j_memKeys(w.bucket.pathToImmutableObject)
 //@   ensures keyed-kept: (forall k string :: k in old(w.bucket.pathToImmutableObject) ==> old(w.bucket.pathToImmutableObject)[k].ObjectInfo.Path() == k) ==> (forall k string :: k in w.bucket.pathToImmutableObject ==> w.bucket.pathToImmutableObject[k].ObjectInfo.Path() == k)
 //@   ensures only-this-bucket: forall c *bucket :: c != w.bucket ==> c.pathToImmutableObject == old(c.pathToImmutableObject)
+// (ca-D2) C15, "an object becomes visible only in full": the stored object holds exactly the bytes accumulated by Write
+//@   ensures stored-data {C15}: !old(w.closed) ==> bstr(w.bucket.pathToImmutableObject[w.path].data) == ghost.buf[w.buffer]
 //@   canary ensures err != nil
 //
 //@ func (w *writeObjectCloser) SetExternalPath(externalPath) (err)
@@ -192,3 +194,7 @@ package storagemem
 //@   modifies ghost.buf
 //@   ensures closed-refused: w.closed ==> err != nil && n == 0
 //@   ensures complete: !w.closed ==> err == nil && n == len(p)
+// (ca-D2) the bytes are appended to the writer's own buffer and to nothing else; a refused write appends nothing; the
+// bucket is not touched before Close (frame: no heap component is modified)
+//@   ensures appended: !w.closed ==> ghost.buf == put(old(ghost.buf), w.buffer, old(ghost.buf)[w.buffer] + bstr(p))
+//@   ensures refused-appends-nothing: w.closed ==> ghost.buf == old(ghost.buf)
